@@ -13,6 +13,13 @@
 //! fetch_balances, account_snapshot} x {next op immediately / after the latency}; counts oneshot
 //! responses and broadcast notifications and checks the queries.
 //!
+//! Also in layer 2: every open-order symbol again as a call the client ABANDONS - its future is polled, so the
+//! request is with the exchange, and then dropped at once or half a latency later (what a client-side timeout
+//! shorter than the exchange's latency does). Nothing is demanded about that call's own answer; the order itself is
+//! still judged: accepted per the ledger => one balance + one trade announcement, fresh ids, reflected by later
+//! queries (`.../client-abandoned-call` signatures). Layer 3 has the same through the real ExecutionManager: one
+//! configuration whose exchange latency (1.5 s) exceeds the manager's request timeout (1 s).
+//!
 //! Layer 2b: one LONG scripted run through the same path (150 / 600 accepted orders, the whole trade history
 //! queried after every 16th order and at the end) - the history-length dimension (ids, trade history).
 //!
@@ -70,7 +77,7 @@ use barter_execution::{
         ExecutionClient,
         mock::{MockExecution, MockExecutionClientConfig, MockExecutionConfig},
     },
-    error::{ApiError, OrderError, UnindexedOrderError},
+    error::{ApiError, ConnectivityError, OrderError, UnindexedOrderError},
     exchange::mock::{MockExchange, OpenOrderNotifications, account::AccountState},
     order::{
         Order, OrderEvent, OrderKey, OrderKind, TimeInForce,
@@ -167,8 +174,15 @@ fn fine_alphabet() -> Vec<Sym> {
 pub struct Config {
     pub balances: [String; 3],
     pub fee: String,
+    /// latency of the simulated exchange in ms; None = `LATENCY_MS` (only layer 3 varies it: a latency beyond the
+    /// execution manager's request timeout makes the manager abandon every open-order call)
+    #[serde(default, skip_serializing_if = "Option::is_none")]
+    pub latency_ms: Option<u64>,
 }
 impl Config {
+    fn latency(&self) -> u64 {
+        self.latency_ms.unwrap_or(LATENCY_MS)
+    }
     fn label(&self) -> String {
         serde_json::to_string(self).unwrap()
     }
@@ -461,6 +475,92 @@ fn judge_open(s: &Sym, n: usize, req: &OrderRequestOpen<ExchangeId, InstrumentNa
     (ledger_viols, next)
 }
 
+/// Judge an open-order call the client ABANDONED after the request had reached the exchange (layers 2 and 3).
+/// There is no answer; `balances` / `trades` are the announcements attributed to the order by content (see
+/// `env_judge`). The statement's "each accepted order ... announced by one balance and one trade notification"
+/// does not depend on the client still listening for the answer, and whether the order is accepted is decided by
+/// the ledger (R-accept), so: predicted accepted => exactly one balance announcement (the debited asset, its new
+/// value) and exactly one trade announcement (fresh order / trade id, configured fee); predicted rejected => none.
+/// Returns (violations, ledger to continue from, accepted according to the model).
+#[allow(clippy::too_many_arguments)]
+fn judge_abandoned(
+    s: &Sym,
+    n: usize,
+    how: Abandon,
+    req: &OrderRequestOpen<ExchangeId, InstrumentNameExchange>,
+    fee: Decimal,
+    before: &Ledger,
+    balances: &[&AssetBalance<AssetNameExchange>],
+    trades: &[&Trade<QuoteAsset, InstrumentNameExchange>],
+    issued: &mut Issued,
+) -> (Vec<Viol>, Option<Ledger>, bool) {
+    let side = if s.sell { "sell" } else { "buy" };
+    let sp = spend(s, fee, false);
+    let (want_accept, want_after) = predict(before, sp);
+    let ctx_txt = format!(
+        "request #{n} {s:?} fee={fee} ledger before={before:?}; the client dropped the open_order call ({how:?}) after the request had reached the exchange; announcements attributed to it: balances={:?} trades={:?}",
+        balances.iter().map(|b| (b.asset.name().to_string(), b.balance)).collect::<Vec<_>>(),
+        trades.iter().map(|t| (t.id.0.to_string(), t.order_id.0.to_string())).collect::<Vec<_>>()
+    );
+    // does the observation fit "decided on `sp`"?
+    let fits = |sp: Option<(&'static str, Decimal)>| {
+        let (acc, after) = predict(before, sp);
+        if acc {
+            let asset = sp.unwrap().0;
+            trades.len() == 1 && balances.len() == 1 && balances[0].asset.name().as_str() == asset && (balances[0].balance.total, balances[0].balance.free) == after[asset]
+        } else {
+            trades.is_empty() && balances.is_empty()
+        }
+    };
+    let mut viols: Vec<Viol> = Vec::new();
+    let mut next = Some(want_after.clone());
+    if !fits(sp) {
+        let alt = spend(s, fee, true);
+        // (folded only on positive evidence - announcements the quote-asset explanation predicts; "nothing was
+        // announced" is reported as what it is)
+        if s.sell && sp.is_some() && predict(before, alt).0 && fits(alt) {
+            let (_, alt_after) = predict(before, alt);
+            viols.push((
+                "C08/sell-spends-wrong-asset/quote-instead-of-base".into(),
+                format!("{ctx_txt}; statement: a sell spends the BASE asset {:?}; the announcements are exactly those of checking and debiting the QUOTE asset {:?}", sp.unwrap(), alt.unwrap()),
+            ));
+            next = Some(alt_after);
+        } else if want_accept {
+            if balances.len() != 1 {
+                viols.push((format!("C08/notify/balance/count={}/client-abandoned-call", balances.len().min(2)), format!("{ctx_txt}; the ledger accepts this order ({sp:?}): {} balance announcements for one accepted order", balances.len())));
+            } else if let Some((asset, _)) = sp {
+                // (attributed by the quote-asset explanation although that explanation does not fit as a whole)
+                if balances[0].asset.name().as_str() != asset {
+                    viols.push((format!("C08/notify/balance/{side}/wrong-asset"), format!("{ctx_txt}; announced balance of {} instead of the debited {asset}", balances[0].asset.name())));
+                }
+            }
+            if trades.len() != 1 {
+                viols.push((format!("C08/notify/trade/count={}/client-abandoned-call", trades.len().min(2)), format!("{ctx_txt}; the ledger accepts this order ({sp:?}): {} trade announcements for one accepted order", trades.len())));
+            }
+        } else {
+            // announcements that only the quote-asset explanation attributes to an order the ledger rejects
+            viols.push(("C08/notify/rejected-order-announced/client-abandoned-call".into(), format!("{ctx_txt}; the ledger rejects this order ({sp:?})")));
+            next = None;
+        }
+    }
+    // R-fill on the announced fill: ids never issued before, fee = configured percentage of the order value
+    if let Some(t) = trades.first() {
+        if issued.order_ids.contains(&t.order_id.0.to_string()) {
+            viols.push(("C08/fresh-id/order-id-reused".into(), format!("{ctx_txt}; order id {} was issued before: {:?}", t.order_id.0, issued.order_ids)));
+        }
+        issued.order_ids.push(t.order_id.0.to_string());
+        if issued.trade_ids.contains(&t.id.0.to_string()) {
+            viols.push(("C08/fresh-id/trade-id-reused".into(), format!("{ctx_txt}; trade id {} was issued before: {:?}", t.id.0, issued.trade_ids)));
+        }
+        issued.trade_ids.push(t.id.0.to_string());
+        let want_fee = req.state.price * req.state.quantity * fee;
+        if t.fees.fees != want_fee {
+            viols.push((format!("C08/fill/fees/{side}"), format!("{ctx_txt}; trade fees {} (quote), configured percentage of the order value gives {want_fee}", t.fees.fees)));
+        }
+    }
+    (viols, next, want_accept)
+}
+
 // ------------------------------------------------------------------------------------------------
 // layer 1: E-SEQ on MockExchange::open_order / account_snapshot
 // ------------------------------------------------------------------------------------------------
@@ -623,10 +723,17 @@ impl<'a> SeqModel for M<'a> {
 // ------------------------------------------------------------------------------------------------
 
 const LATENCY_MS: u64 = 100;
+/// `ExecutionBuilder::add_mock` gives its ExecutionManager a request timeout of 1 s
+const MANAGER_TIMEOUT_MS: u64 = 1000;
+/// layer 3 "slow exchange": a latency beyond that timeout
+const SLOW_LATENCY_MS: u64 = 1500;
 
 #[derive(Debug, Clone, Copy, PartialEq, Eq, Hash, Serialize, Deserialize)]
 pub enum Op {
     Open(Sym),
+    /// an open-order call the client ABANDONS: its future is polled until the request has reached the exchange
+    /// and then dropped (so the oneshot receiver of the response is gone when the exchange answers)
+    OpenDrop(Sym, Abandon),
     /// since = the beginning of time
     TradesAll,
     /// since = exchange time of a request sent now (trades of orders sent at this instant are exactly at `since`)
@@ -635,9 +742,20 @@ pub enum Op {
     Snapshot,
 }
 
+/// When the client gives up on an open-order call it has sent.
+#[derive(Debug, Clone, Copy, PartialEq, Eq, Hash, Serialize, Deserialize)]
+pub enum Abandon {
+    /// right after the request was handed to the exchange
+    AtOnce,
+    /// half of the exchange's latency later
+    MidLatency,
+    /// layer 3: the ExecutionManager's request timeout (shorter than the exchange's latency) dropped the call
+    ManagerTimeout,
+}
+
 fn env_ops() -> Vec<Op> {
     let m = |sell, price, qty, inst| Op::Open(Sym { sell, price, qty, inst, limit: false, tif: 0, fine: false });
-    vec![
+    let mut v = vec![
         m(false, 10, 1, 0), // buy BTCUSDT
         m(true, 10, 1, 0),  // sell BTCUSDT
         m(true, 1, 3, 2),   // sell ETHBTC (base eth, quote btc)
@@ -649,7 +767,13 @@ fn env_ops() -> Vec<Op> {
         Op::TradesSinceNow,
         Op::Balances,
         Op::Snapshot,
-    ]
+    ];
+    // every open-order symbol again as a call the client abandons (appended: the indices above are stable)
+    let opens: Vec<Sym> = v.iter().filter_map(|op| if let Op::Open(s) = op { Some(*s) } else { None }).collect();
+    for how in [Abandon::AtOnce, Abandon::MidLatency] {
+        v.extend(opens.iter().map(|s| Op::OpenDrop(*s, how)));
+    }
+    v
 }
 
 enum Resp {
@@ -666,6 +790,9 @@ struct EnvExec {
     outcome_hash: u64,
     responses: u64,
     notifications: u64,
+    /// open-order calls the client abandoned / of those the ones the ledger model says were accepted
+    abandoned: u64,
+    abandoned_accepted: u64,
 }
 
 fn env_execute(cfg: &Config, max_ops: usize, ch: &mut Chooser) -> EnvExec {
@@ -730,7 +857,7 @@ fn env_execute(cfg: &Config, max_ops: usize, ch: &mut Chooser) -> EnvExec {
             let client = &client;
             let names = &names;
             let fut: Pin<Box<dyn Future<Output = Resp> + '_>> = match op {
-                Op::Open(s) => {
+                Op::Open(s) | Op::OpenDrop(s, _) => {
                     let r = request(&s, k);
                     Box::pin(async move {
                         let req = OrderEvent {
@@ -770,6 +897,17 @@ fn env_execute(cfg: &Config, max_ops: usize, ch: &mut Chooser) -> EnvExec {
             };
             pending.push((k, fut));
             settle!();
+            // environment: the client abandons this call. The future was polled (settle), so the request is with the
+            // exchange; now - or half a latency later - it is dropped together with the response receiver.
+            if let Op::OpenDrop(_, how) = op {
+                if how == Abandon::MidLatency {
+                    tokio::time::advance(Duration::from_millis(LATENCY_MS / 2)).await;
+                    now_ms += LATENCY_MS / 2;
+                    settle!();
+                }
+                pending.retain(|(i, _)| *i != k);
+                answers[k] = None; // nothing is demanded about (or learnt from) the abandoned call's own response
+            }
             // environment: next op at the same instant, or after the latency has passed
             if ch.choose(2) == 1 {
                 tokio::time::advance(Duration::from_millis(LATENCY_MS)).await;
@@ -814,6 +952,18 @@ fn env_judge(cfg: &Config, via: &str, unique_strategy: bool, ops: Vec<(Op, u64)>
     }
     let mut used_b = vec![false; ann_balances.len()];
     let mut used_t = vec![false; ann_trades.len()];
+    // trade announcements that carry the order id of an AWAITED order's answer belong to that order; an abandoned
+    // call (which has no answer to take an id from) finds its announcement by content among the others
+    let reserved_t: Vec<bool> = ann_trades
+        .iter()
+        .map(|t| ops.iter().zip(answers.iter()).any(|(op, a)| matches!((&op.0, a), (Op::Open(_), Some(Resp::Open(r))) if r.state.as_ref().map(|o| o.id == t.order_id).unwrap_or(false))))
+        .collect();
+    // accepted orders whose fill is in the exchange's history but whose ids the harness could not learn (abandoned
+    // call without announcement - reported where it happens); tolerated as extra entries of later trade queries
+    let mut unknown_fills = 0usize;
+    // an abandoned call met an unknown ledger: which announcements are its own cannot be decided
+    let mut skip_leftovers = false;
+    let (mut abandoned, mut abandoned_accepted) = (0u64, 0u64);
     let initial: Ledger = ASSETS.iter().zip(cfg.balances.iter()).map(|(a, b)| (a.to_string(), (b.parse().unwrap(), b.parse().unwrap()))).collect();
     let mut ledger: Option<Ledger> = Some(initial);
     let mut issued = Issued::default();
@@ -823,6 +973,74 @@ fn env_judge(cfg: &Config, via: &str, unique_strategy: bool, ops: Vec<(Op, u64)>
     for (k, (op, sent)) in ops.iter().enumerate() {
         if task_died && !matches!(&answers[k], Some(Resp::Open(_) | Resp::Trades(_) | Resp::Balances(_) | Resp::Snapshot(_))) {
             ledger = None; // consequence of the dead exchange task (reported once above)
+            continue;
+        }
+        if let Op::OpenDrop(s, how) = op {
+            // ---- the client abandoned this call: nothing is demanded about its response. The exchange's decision does
+            // not depend on the client waiting, so the ledger model says whether the order was accepted; an accepted
+            // order is still a fill: one balance and one trade announcement, fresh ids, ledger debited.
+            abandoned += 1;
+            let Some(before) = ledger.clone() else {
+                unknown_fills += 1;
+                skip_leftovers = true;
+                continue;
+            };
+            let req = request_u(s, k, unique_strategy);
+            let mut trades: Vec<&Trade<QuoteAsset, InstrumentNameExchange>> = Vec::new();
+            let mut balances: Vec<&AssetBalance<AssetNameExchange>> = Vec::new();
+            let expl: Vec<(bool, Ledger, &'static str)> = [false, true]
+                .into_iter()
+                .filter(|use_quote| !*use_quote || s.sell)
+                .filter_map(|use_quote| spend(s, fee, use_quote))
+                .map(|sp| {
+                    let (acc, after) = predict(&before, Some(sp));
+                    (acc, after, sp.0)
+                })
+                .collect();
+            if expl.iter().any(|e| e.0) {
+                // the trade announcement that echoes this order (and every further one with the same order id)
+                let first = (0..ann_trades.len()).find(|i| {
+                    let t = ann_trades[*i];
+                    !used_t[*i] && !reserved_t[*i] && t.instrument == req.key.instrument && t.strategy == req.key.strategy && t.side == req.state.side && t.price == req.state.price && t.quantity == req.state.quantity
+                });
+                if let Some(f) = first {
+                    for i in 0..ann_trades.len() {
+                        if !used_t[i] && !reserved_t[i] && ann_trades[i].order_id == ann_trades[f].order_id {
+                            used_t[i] = true;
+                            trades.push(ann_trades[i]);
+                        }
+                    }
+                }
+                // the balance announcement the statement predicts (balances only ever fall, so asset + new value name
+                // one order); the one "the sell spent quote" predicts only when a fill of this order was announced
+                // (without that evidence the value could as well be a later order's)
+                let pick = expl.iter().enumerate().filter(|(x, e)| e.0 && (*x == 0 || !trades.is_empty())).find_map(|(_, (_, after, asset))| {
+                    (0..ann_balances.len()).find(|i| {
+                        let b = ann_balances[*i];
+                        !used_b[*i] && b.asset.name().as_str() == *asset && (b.balance.total, b.balance.free) == after[*asset]
+                    })
+                });
+                if let Some(i) = pick {
+                    used_b[i] = true;
+                    balances.push(ann_balances[i]);
+                }
+            }
+            for t in &trades {
+                fills.push((t.id.0.to_string(), t.time_exchange, k));
+            }
+            let (v, next, accepted) = judge_abandoned(s, k, *how, &req, fee, &before, &balances, &trades, &mut issued);
+            if accepted {
+                abandoned_accepted += 1;
+                if trades.is_empty() {
+                    unknown_fills += 1;
+                }
+            }
+            viols.extend(v.into_iter().map(|(sig, d)| (sig, format!("[via {via}] {d}; {seq_txt}"))));
+            if next.is_none() {
+                unknown_fills += 1;
+                skip_leftovers = true;
+            }
+            ledger = next;
             continue;
         }
         let Some(ans) = &answers[k] else {
@@ -891,7 +1109,7 @@ fn env_judge(cfg: &Config, via: &str, unique_strategy: bool, ops: Vec<(Op, u64)>
                 let may: Vec<String> = fills.iter().filter(|f| f.1 >= since).map(|f| f.0.clone()).collect();
                 let dup = got.windows(2).any(|w| w[0] == w[1]);
                 let missing = must.iter().any(|m| !got.contains(m));
-                let extra = got.iter().any(|g| !may.contains(g));
+                let extra = got.iter().filter(|g| !may.contains(g)).count() > unknown_fills;
                 if dup || missing || extra {
                     let what = if dup { "duplicate" } else if missing { "missing" } else { "extra" };
                     viols.push((format!("C08/env/trades-query/{what}"), format!("op #{k} {op:?} (since={since}) listed trade ids {got:?}; accepted so far (id, time, op)={fills:?}; {seq_txt}")));
@@ -923,10 +1141,10 @@ fn env_judge(cfg: &Config, via: &str, unique_strategy: bool, ops: Vec<(Op, u64)>
     }
     let left_b = used_b.iter().filter(|u| !**u).count();
     let left_t = used_t.iter().filter(|u| !**u).count();
-    if left_b > 0 {
+    if left_b > 0 && !skip_leftovers {
         viols.push(("C08/env/notify/balance/more-than-one-per-accepted-order".into(), format!("{left_b} balance announcements beyond one per accepted order: {ann_balances:?}; {seq_txt}")));
     }
-    if left_t > 0 {
+    if left_t > 0 && !skip_leftovers {
         viols.push(("C08/env/notify/trade/not-owned-by-an-accepted-order".into(), format!("{left_t} trade announcements that belong to no accepted order: {ann_trades:?}; {seq_txt}")));
     }
     let outcome_hash = hash_of(&(
@@ -941,12 +1159,12 @@ fn env_judge(cfg: &Config, via: &str, unique_strategy: bool, ops: Vec<(Op, u64)>
         }).collect::<Vec<_>>(),
         events.len(),
     ));
-    EnvExec { viols, ops, outcome_hash, responses, notifications: events.len() as u64 }
+    EnvExec { viols, ops, outcome_hash, responses, notifications: events.len() as u64, abandoned, abandoned_accepted }
 }
 
 fn op_tag(op: &Op) -> &'static str {
     match op {
-        Op::Open(_) => "open",
+        Op::Open(_) | Op::OpenDrop(..) => "open",
         Op::TradesAll | Op::TradesSinceNow => "trades",
         Op::Balances => "balances",
         Op::Snapshot => "snapshot",
@@ -979,7 +1197,7 @@ fn long_script(n_opens: usize) -> Vec<usize> {
 }
 
 fn long_config() -> Config {
-    Config { balances: ["100000".into(), "100000".into(), "100000".into()], fee: "0.1".into() }
+    Config { balances: ["100000".into(), "100000".into(), "100000".into()], fee: "0.1".into(), latency_ms: None }
 }
 
 // ------------------------------------------------------------------------------------------------
@@ -1031,9 +1249,14 @@ fn builder_execute(cfg: &Config, max_ops: usize, ch: &mut Chooser) -> EnvExec {
     let mut viols: Vec<Viol> = Vec::new();
     let mut mock_died = false;
 
+    // a latency beyond the manager's request timeout: the manager abandons every open-order call (drops the
+    // client future) before the exchange answers
+    let latency = cfg.latency();
+    let slow = latency > MANAGER_TIMEOUT_MS;
+
     rt.block_on(async {
         let start = tokio::time::Instant::now();
-        let build = match ExecutionBuilder::new(&indexed).add_mock(cfg.mock_config(LATENCY_MS), clock.clone()) {
+        let build = match ExecutionBuilder::new(&indexed).add_mock(cfg.mock_config(latency), clock.clone()) {
             Ok(b) => b.build(),
             Err(e) => {
                 viols.push(("C08/builder/add-mock-failed".into(), format!("{e:?}")));
@@ -1054,6 +1277,18 @@ fn builder_execute(cfg: &Config, max_ops: usize, ch: &mut Chooser) -> EnvExec {
                     while let Ok(ev) = exec.account_channel.rx.rx.try_recv() {
                         collected.push(ev);
                     }
+                }
+            }};
+        }
+        // virtual time moves in steps of <= 500 ms (the manager's timeout and the exchange's latency fire in order)
+        macro_rules! advance_by {
+            ($ms:expr) => {{
+                let mut left: u64 = $ms;
+                while left > 0 {
+                    let step = left.min(500);
+                    tokio::time::advance(Duration::from_millis(step)).await;
+                    settle!();
+                    left -= step;
                 }
             }};
         }
@@ -1080,16 +1315,17 @@ fn builder_execute(cfg: &Config, max_ops: usize, ch: &mut Chooser) -> EnvExec {
                 Err(e) => viols.push(("C08/builder/no-link-for-the-mocked-exchange".into(), format!("{e:?}"))),
             }
             settle!();
-            // environment: next order at the same instant, or after the latency has passed
-            if ch.choose(2) == 1 {
-                tokio::time::advance(Duration::from_millis(LATENCY_MS)).await;
-                settle!();
+            // environment: next order at the same instant, or after the latency has passed; with a slow exchange
+            // also: after the manager gave up on this order while the exchange's answer is still on its way
+            match ch.choose(if slow { 3 } else { 2 }) {
+                1 => advance_by!(latency),
+                2 => advance_by!(MANAGER_TIMEOUT_MS),
+                _ => {}
             }
         }
-        // horizon: everything in flight lands (well inside the manager's request timeout)
+        // horizon: everything in flight lands
         for _ in 0..3 {
-            tokio::time::advance(Duration::from_millis(LATENCY_MS)).await;
-            settle!();
+            advance_by!(latency);
         }
         mock_died = exec.handles.mock_exchanges.iter().any(|h| h.is_finished());
     });
@@ -1152,12 +1388,20 @@ fn builder_execute(cfg: &Config, max_ops: usize, ch: &mut Chooser) -> EnvExec {
     }
     // ---- the answer to order k = the order snapshot with its client order id
     let mut answers: Vec<Option<Resp>> = Vec::new();
+    let mut gave_up: Vec<usize> = Vec::new();
     for (k, (op, _)) in ops.iter().enumerate() {
         let Op::Open(s) = op else { unreachable!() };
         let req = request_u(s, k, true);
         let mine: Vec<_> = order_events.iter().filter(|o| o.key.cid == req.key.cid).collect();
         if mine.len() > 1 {
             viols.push(("C08/builder/order-answered-more-than-once".into(), format!("order #{k}: {mine:?}; {seq_txt}")));
+        }
+        // slow exchange: the manager reports its own timeout (or nothing) - the call was abandoned; what the manager
+        // says about it is not the simulated exchange's business and nothing is demanded about it
+        if slow && mine.first().map(|o| matches!(&o.state, OrderState::Inactive(InactiveOrderState::OpenFailed(OrderError::Connectivity(ConnectivityError::Timeout))))).unwrap_or(true) {
+            gave_up.push(k);
+            answers.push(None);
+            continue;
         }
         let Some(o) = mine.first() else {
             answers.push(None);
@@ -1204,6 +1448,11 @@ fn builder_execute(cfg: &Config, max_ops: usize, ch: &mut Chooser) -> EnvExec {
             viols.push(("C08/builder/answer-to-an-order-never-sent".into(), format!("{o:?}; {seq_txt}")));
         }
     }
+    for k in gave_up {
+        if let Op::Open(s) = ops[k].0 {
+            ops[k].0 = Op::OpenDrop(s, Abandon::ManagerTimeout);
+        }
+    }
     env_judge(cfg, "ExecutionBuilder::add_mock -> ExecutionManager -> MockExecution -> MockExchange::run", true, ops, answers, events, mock_died, viols)
 }
 
@@ -1232,7 +1481,7 @@ fn configs(menu: &[&str], fees: &[&str]) -> Vec<Config> {
         for a in menu {
             for b in menu {
                 for c in menu {
-                    v.push(Config { balances: [a.to_string(), b.to_string(), c.to_string()], fee: f.to_string() });
+                    v.push(Config { balances: [a.to_string(), b.to_string(), c.to_string()], fee: f.to_string(), latency_ms: None });
                 }
             }
         }
@@ -1308,14 +1557,16 @@ pub fn run(ctx: &Ctx) -> Outcome {
 
     // ---- layer 2
     let env_cfgs = vec![
-        Config { balances: ["3.3".into(), "3.3".into(), "33".into()], fee: "0.1".into() },
-        Config { balances: ["5".into(), "0".into(), "25".into()], fee: "0".into() },
-        Config { balances: ["0".into(), "3".into(), "11".into()], fee: "0.1".into() },
+        Config { balances: ["3.3".into(), "3.3".into(), "33".into()], fee: "0.1".into(), latency_ms: None },
+        Config { balances: ["5".into(), "0".into(), "25".into()], fee: "0".into(), latency_ms: None },
+        Config { balances: ["0".into(), "3".into(), "11".into()], fee: "0.1".into(), latency_ms: None },
     ];
     let env_depth = if quick { 3 } else { 4 };
     let env_exec = AtomicU64::new(0);
     let env_resp = AtomicU64::new(0);
     let env_notes = AtomicU64::new(0);
+    let env_abandoned = AtomicU64::new(0);
+    let env_abandoned_acc = AtomicU64::new(0);
     let samples: Mutex<BTreeMap<u64, Value>> = Mutex::new(BTreeMap::new());
     let mut env_points = 0u64;
     for cfg in &env_cfgs {
@@ -1324,6 +1575,8 @@ pub fn run(ctx: &Ctx) -> Outcome {
             env_exec.fetch_add(1, Ordering::Relaxed);
             env_resp.fetch_add(ex.responses, Ordering::Relaxed);
             env_notes.fetch_add(ex.notifications, Ordering::Relaxed);
+            env_abandoned.fetch_add(ex.abandoned, Ordering::Relaxed);
+            env_abandoned_acc.fetch_add(ex.abandoned_accepted, Ordering::Relaxed);
             distinct.add_hash(ex.outcome_hash);
             let choices = ch.choices();
             if ex.ops.len() == env_depth && ex.notifications >= 4 {
@@ -1345,7 +1598,10 @@ pub fn run(ctx: &Ctx) -> Outcome {
         env_points += stats.choice_points;
     }
     let env_execs = env_exec.load(Ordering::Relaxed);
-    eprintln!("C08 layer 2: configs={} depth={env_depth} executions={env_execs} elapsed={:.1}s", env_cfgs.len(), ctx.start.elapsed().as_secs_f64());
+    eprintln!(
+        "C08 layer 2: configs={} menu={} depth={env_depth} executions={env_execs} abandoned_calls={} (accepted {}) elapsed={:.1}s",
+        env_cfgs.len(), env_ops().len(), env_abandoned.load(Ordering::Relaxed), env_abandoned_acc.load(Ordering::Relaxed), ctx.start.elapsed().as_secs_f64()
+    );
 
     // ---- layer 2b: one long scripted run (history length)
     let long_opens: usize = if quick { 150 } else { 600 };
@@ -1362,13 +1618,17 @@ pub fn run(ctx: &Ctx) -> Outcome {
 
     // ---- layer 3: the builder path
     let b_cfgs = vec![
-        Config { balances: ["3.3".into(), "3.3".into(), "33".into()], fee: "0.1".into() },
-        Config { balances: ["5".into(), "0".into(), "25".into()], fee: "0".into() },
+        Config { balances: ["3.3".into(), "3.3".into(), "33".into()], fee: "0.1".into(), latency_ms: None },
+        Config { balances: ["5".into(), "0".into(), "25".into()], fee: "0".into(), latency_ms: None },
+        // slow exchange: the manager's request timeout (1 s) drops every open-order call before the answer (1.5 s)
+        Config { balances: ["3.3".into(), "3.3".into(), "33".into()], fee: "0.1".into(), latency_ms: Some(SLOW_LATENCY_MS) },
     ];
     let b_depth = if quick { 3 } else { 4 };
     let b_exec = AtomicU64::new(0);
     let b_resp = AtomicU64::new(0);
     let b_notes = AtomicU64::new(0);
+    let b_abandoned = AtomicU64::new(0);
+    let b_abandoned_acc = AtomicU64::new(0);
     let b_distinct = Distinct::default();
     let mut b_points = 0u64;
     for cfg in &b_cfgs {
@@ -1377,6 +1637,8 @@ pub fn run(ctx: &Ctx) -> Outcome {
             b_exec.fetch_add(1, Ordering::Relaxed);
             b_resp.fetch_add(ex.responses, Ordering::Relaxed);
             b_notes.fetch_add(ex.notifications, Ordering::Relaxed);
+            b_abandoned.fetch_add(ex.abandoned, Ordering::Relaxed);
+            b_abandoned_acc.fetch_add(ex.abandoned_accepted, Ordering::Relaxed);
             b_distinct.add_hash(ex.outcome_hash);
             let choices = ch.choices();
             for (sig, detail) in ex.viols {
@@ -1386,7 +1648,10 @@ pub fn run(ctx: &Ctx) -> Outcome {
         b_points += stats.choice_points;
     }
     let b_execs = b_exec.load(Ordering::Relaxed);
-    eprintln!("C08 layer 3: configs={} depth={b_depth} executions={b_execs} elapsed={:.1}s", b_cfgs.len(), ctx.start.elapsed().as_secs_f64());
+    eprintln!(
+        "C08 layer 3: configs={} depth={b_depth} executions={b_execs} calls_abandoned_by_the_manager={} (accepted {}) elapsed={:.1}s",
+        b_cfgs.len(), b_abandoned.load(Ordering::Relaxed), b_abandoned_acc.load(Ordering::Relaxed), ctx.start.elapsed().as_secs_f64()
+    );
 
     Outcome {
         level: "exploration",
@@ -1405,6 +1670,8 @@ pub fn run(ctx: &Ctx) -> Outcome {
             "layer2_env": {
                 "configurations": env_cfgs, "ops_menu": env_ops().len(), "max_ops": env_depth, "executions": env_execs, "choice_points": env_points,
                 "oneshot_responses": env_resp.load(Ordering::Relaxed), "broadcast_notifications": env_notes.load(Ordering::Relaxed),
+                "open_order_calls_abandoned_by_the_client": env_abandoned.load(Ordering::Relaxed), "of_those_accepted_by_the_ledger": env_abandoned_acc.load(Ordering::Relaxed),
+                "abandonment": "every open-order symbol also as a call whose future is polled (request sent) and then dropped at once / half a latency later; the order must still be announced and reflected by the queries",
                 "distinct_outcomes": distinct.len(),
             },
             "layer2b_long_run": {
@@ -1414,9 +1681,11 @@ pub fn run(ctx: &Ctx) -> Outcome {
             "layer3_builder_path": {
                 "configurations": b_cfgs, "order_menu": builder_syms().len(), "max_orders": b_depth, "executions": b_execs, "choice_points": b_points,
                 "order_answers": b_resp.load(Ordering::Relaxed), "notifications": b_notes.load(Ordering::Relaxed), "distinct_outcomes": b_distinct.len(),
+                "open_order_calls_abandoned_by_the_manager": b_abandoned.load(Ordering::Relaxed), "of_those_accepted_by_the_ledger": b_abandoned_acc.load(Ordering::Relaxed),
+                "slow_exchange": format!("one configuration with latency {SLOW_LATENCY_MS} ms > the manager's request timeout {MANAGER_TIMEOUT_MS} ms: every call is dropped by the manager before the answer; pacing same instant / after the timeout / after the latency"),
                 "what": "IndexedInstruments [Kraken (tracked, no link) x2, BinanceSpot x3] -> ExecutionBuilder::add_mock -> build -> init; orders sent through the MultiExchangeTxMap, answers and announcements read (indexed) from the merged account channel and judged by the same ledger oracle",
             },
-            "rule": "ledger model from the statement (buy spends quote p*q*(1+fee), sell spends base q*(1+fee); accept iff enough; exact debit; rejection without effect; fresh ids; fee percentage; one balance + one trade announcement; queries reflect accepted orders) checked after every step of every request sequence <= max_len for every balance/fee configuration on the real MockExchange::open_order/account_snapshot, on every op sequence x pacing through MockExecution -> MockExchange::run (+ one long scripted run), and on every order sequence x pacing through the builder path (ExecutionBuilder::add_mock -> ExecutionManager -> MockExecution -> MockExchange configured by the builder)",
+            "rule": "ledger model from the statement (buy spends quote p*q*(1+fee), sell spends base q*(1+fee); accept iff enough; exact debit; rejection without effect; fresh ids; fee percentage; one balance + one trade announcement; queries reflect accepted orders) checked after every step of every request sequence <= max_len for every balance/fee configuration on the real MockExchange::open_order/account_snapshot, on every op sequence x pacing x {call awaited, call abandoned at once, abandoned half a latency later} through MockExecution -> MockExchange::run (+ one long scripted run; an abandoned call's accepted order must still be announced once by a balance and a trade notification with fresh ids and be reflected by later queries), and on every order sequence x pacing through the builder path (ExecutionBuilder::add_mock -> ExecutionManager -> MockExecution -> MockExchange configured by the builder; one configuration with an exchange slower than the manager's request timeout, so that the manager abandons every call)",
             "samples": samples.lock().unwrap().values().cloned().collect::<Vec<_>>(),
         }),
         assumptions: vec![
@@ -1428,6 +1697,7 @@ pub fn run(ctx: &Ctx) -> Outcome {
             "the relative order of the balance and the trade announcement is not prescribed; a trade exactly at `since` may or may not be listed".into(),
             "layer 2: requests are processed in the order they were sent (single client)".into(),
             "a market order is a market order whatever its time in force (IOC, FOK, GTC, GTD are all in the alphabet); the answer to an order repeats the order's key and terms".into(),
+            "an open-order call the client abandons AFTER its request reached the exchange is an order like any other: whether it is accepted is decided by the ledger (its answer is neither demanded nor used), and an accepted one is owed its one balance and one trade announcement; its announcements are recognised by content (trade: instrument, strategy, side, price, quantity, not carrying an awaited order's id; balance: the debited asset with its new value)".into(),
             "layer 3: every order of a sequence has its own strategy id (a fully filled order comes back without its exchange order id; its fill is found through the strategy it echoes)".into(),
         ],
     }
